@@ -412,6 +412,94 @@ def fibre_volume_poly(a, env, svar):
     raise ValueError(a.kind)
 
 
+def build_tp(node, tp):
+    """like Node.to_tp; flagged unions / cuts are built with the classes of their own modules (tp.domains does not
+    export UnionDomain / CutDomain, which geomgen's to_tp assumes)"""
+    k = node.kind
+    D = tp.domains
+    if k in PRIMS:
+        return node.to_tp(tp)
+    kids = [build_tp(x, tp) for x in node.kids]
+    if k == "union":
+        from torchphysics.problem.domains.domainoperations.union import UnionDomain
+        return UnionDomain(kids[0], kids[1], disjoint=True) if node.flags.get("disjoint") else kids[0] + kids[1]
+    if k == "cut":
+        from torchphysics.problem.domains.domainoperations.cut import CutDomain
+        return CutDomain(kids[0], kids[1], contained=True) if node.flags.get("contained") else kids[0] - kids[1]
+    if k == "inter":
+        return kids[0] & kids[1]
+    if k == "prod":
+        return kids[0] * kids[1]
+    if k == "translate":
+        return D.Translate(kids[0], node.pfs[0].py())
+    if k == "rotate":
+        return D.Rotate(kids[0], node.pfs[0].py(matrix=True), node.pfs[1].py())
+    if k == "bdry":
+        return kids[0].boundary
+    if k == "bdryL":
+        return kids[0].boundary_left
+    if k == "bdryR":
+        return kids[0].boundary_right
+    raise ValueError(k)
+
+
+def padd(p, q_, sign=1):
+    n = max(len(p), len(q_))
+    return [(p[i] if i < len(p) else 0) + sign * (q_[i] if i < len(q_) else 0) for i in range(n)]
+
+
+def fibre_total_poly(a, env, svar):
+    """measure of the first factor `a` of a product as a polynomial in the product variable (up to the factor pi for
+    discs): primitives, their translations / rotations (measure preserving; the generator's matrices have determinant 1),
+    cuts flagged `contained` (difference) and unions flagged `disjoint` (sum)"""
+    if a.kind in PRIMS:
+        return fibre_volume_poly(a, env, svar)
+    if a.kind in ("translate", "rotate"):
+        return fibre_total_poly(a.kids[0], env, svar)
+    if a.kind == "cut" and a.flags.get("contained"):
+        return padd(fibre_total_poly(a.kids[0], env, svar), fibre_total_poly(a.kids[1], env, svar), -1)
+    if a.kind == "union" and a.flags.get("disjoint"):
+        return padd(fibre_total_poly(a.kids[0], env, svar), fibre_total_poly(a.kids[1], env, svar))
+    raise ValueError(a.kind)
+
+
+def fibre_cells(a, X, envf, env_row, svar="s"):
+    """partition of the fibre A(s) of a product into cells whose measures are polynomials in s (exact, Fractions):
+    returns (idx per point, list of polynomials, labels)"""
+    k = a.kind
+    if k == "translate":
+        t = pf_np(a.pfs[0], envf)
+        return fibre_cells(a.kids[0], X - _cols(t, len(X)), envf, env_row, svar)
+    if k == "rotate":
+        m, c = pf_np(a.pfs[0], envf), pf_np(a.pfs[1], envf)
+        det = m[0] * m[3] - m[1] * m[2]
+        qx, qy = X[:, 0] - c[0], X[:, 1] - c[1]
+        Y = np.stack([(m[3] * qx - m[1] * qy) / det + c[0], (m[0] * qy - m[2] * qx) / det + c[1]], axis=1)
+        return fibre_cells(a.kids[0], Y, envf, env_row, svar)
+    if k == "union" and a.flags.get("disjoint"):
+        ia, pa, la = fibre_cells(a.kids[0], X, envf, env_row, svar)
+        ib, pb, lb = fibre_cells(a.kids[1], X, envf, env_row, svar)
+        idx = np.where(ia >= 0, ia, np.where(ib >= 0, len(pa) + ib, -1))
+        return idx, pa + pb, ["first operand: " + x for x in la] + ["second operand: " + x for x in lb]
+    if k == "cut" and a.flags.get("contained") and a.kids[0].kind == "circle" and a.kids[1].kind == "circle":
+        # annulus (same centre): (|p-c|^2 - q^2) / (r^2 - q^2) is uniform on [0,1], the angle is uniform
+        big, hole = a.kids
+        c, (r,), (q_,) = pf_np(big.pfs[0], envf), pf_np(big.pfs[1], envf), pf_np(hole.pfs[1], envf)
+        dx, dy_ = X[:, 0] - c[0], X[:, 1] - c[1]
+        w = (dx * dx + dy_ * dy_ - q_ * q_) / (r * r - q_ * q_)
+        ang = np.mod(np.arctan2(dy_, dx), 2 * math.pi) / (2 * math.pi)
+        mr, ma = 3, 6
+        idx = _combine([(_bin(w, mr), mr), (_bin(ang, ma), ma)])
+        tot = fibre_total_poly(a, env_row, svar)
+        return (idx, [[x / (mr * ma) for x in tot] for _ in range(mr * ma)],
+                [f"annulus: normalised squared radius bin {i + 1}/{mr}, angle bin {j + 1}/{ma}" for i in range(mr) for j in range(ma)])
+    if k in PRIMS:
+        idx, probs, labels = nat_partition(a, X, envf)
+        vol = fibre_volume_poly(a, env_row, svar)
+        return idx, [[Fr(p).limit_denominator(100000) * x for x in vol] for p in probs], labels
+    raise ValueError("no fibre partition for " + k)
+
+
 def poly_int(coef, a, b):
     return sum(c * (b ** (i + 1) - a ** (i + 1)) / (i + 1) for i, c in enumerate(coef))
 
@@ -582,30 +670,66 @@ def gen_union_node(rng, params, prows):
     return None
 
 
-def gen_prod_node(rng, params, flavour, min_ratio=Fr(3, 2)):
-    """primitive(x or y) x interval(s).  flavour: "const" (independent factors), "moved" (the first factor's position
-    depends on s, its volume does not), "voldep" (the fibre volume varies by a factor >= 1.5 over the interval, so the
-    volume-weighted acceptance matters).  s ranges inside [0, 1] like every parameter, so that the generator's
+ROTS = [(Fr(3, 5), Fr(4, 5)), (Fr(0), Fr(1)), (Fr(5, 13), Fr(12, 13)), (Fr(-3, 5), Fr(4, 5)), (Fr(-4, 5), Fr(-3, 5))]
+
+
+def gen_prod_node(rng, params, flavour, min_ratio=Fr(3, 2), wrap=None):
+    """first factor(x or y) x interval(s).  flavour: "const" (independent factors), "moved" (the first factor's position
+    depends on s, its measure does not), "voldep" (the fibre measure varies by a factor >= min_ratio over the interval, so the
+    volume-weighted acceptance matters).  wrap: None (bare primitive), "translate-const" (constant shift of a shape that
+    depends on s), "translate-dep" (shift depends on s), "rotate", "annulus" (disc minus a contained concentric disc),
+    "union" (two far-apart shapes, flagged disjoint).  s ranges inside [0, 1] like every parameter, so that the generator's
     positive radii / widths stay positive on the whole interval"""
     for _ in range(600):
         lb = dy(rng, 0, 0.5)
         b = Node("interval", "s", [PF([geomgen.c(lb)]), PF([geomgen.c(lb + dy(rng, 0.25, 0.5))])])
         dependent = flavour != "const"
         ga = Gen(rng, params=params + (["s"] if dependent else []), p_dep=0.9 if dependent else 0.3)
-        kind = rng.choice(["circle", "interval"]) if flavour == "voldep" else rng.choice(["circle", "circle", "interval", "par", "tri"])
-        if kind == "interval":
-            a = ga.prim1("y")
-        else:
-            a = ga.prim2("x")
-            if a.kind != kind:
-                continue
-        if dependent and "s" not in a.free_vars():
+        gc = Gen(rng, params=params, p_dep=0.3)          # terms that do not see s
+        kinds = ["circle", "interval"] if flavour == "voldep" else ["circle", "circle", "interval", "par", "tri"]
+        if wrap in ("rotate", "annulus"):
+            kinds = ["circle"] if (flavour == "voldep" or wrap == "annulus") else ["circle", "par", "tri"]
+        kind = rng.choice(kinds)
+
+        def prim():
+            for _t in range(50):
+                p = ga.prim1("y") if kind == "interval" else ga.prim2("x")
+                if p.kind == kind:
+                    return p
+            return None
+        a = prim()
+        if a is None or (dependent and "s" not in a.free_vars()):
             continue
+        var = a.var
+        if wrap == "translate-const":
+            a = Node("translate", var, [gc.vec([dy(rng, -2, 2) for _ in range(DIM[var])])], [a])
+        elif wrap == "translate-dep":
+            a = Node("translate", var, [Gen(rng, params=["s"], p_dep=1.0).vec([dy(rng, -2, 2) for _ in range(DIM[var])])], [a])
+        elif wrap == "rotate":
+            co, si = rng.choice(ROTS)
+            a = Node("rotate", var, [PF([geomgen.c(co), geomgen.c(-si), geomgen.c(si), geomgen.c(co)]),
+                                     PF([geomgen.c(dy(rng, -1, 1)), geomgen.c(dy(rng, -1, 1))])], [a])
+        elif wrap == "annulus":
+            env0 = {p: [Fr(0)] for p in params}
+            rmin = min(a.pfs[1].eval(dict(env0, s=[x]))[0] for x in (Fr(0), Fr(1)))
+            hole = Node("circle", var, [a.pfs[0], PF([geomgen.c(rmin / 2)])])
+            a = Node("cut", None, [], [a, hole], flags=dict(contained=True))
+        elif wrap == "union":
+            a2 = prim()
+            if a2 is None:
+                continue
+            far = [dy(rng, 8, 10) * rng.choice([1, -1]) for _ in range(DIM[var])]
+            a = Node("union", None, [], [a, Node("translate", var, [PF([geomgen.c(x) for x in far])], [a2])], flags=dict(disjoint=True))
         if dependent:
-            env = {p: [Fr(1, 2)] for p in params}
-            coef = fibre_volume_poly(a, env, "s")
+            try:
+                env = {p: [Fr(1, 2)] for p in params}
+                coef = fibre_total_poly(a, env, "s")
+            except ValueError:
+                continue
             (l,), (u,) = b.pfs[0].eval(env), b.pfs[1].eval(env)
             v0, v1 = poly_int(coef, l, l + (u - l) / 4), poly_int(coef, u - (u - l) / 4, u)
+            if min(v0, v1) <= 0:
+                continue
             varies = max(v0, v1) >= min_ratio * min(v0, v1)
             if (flavour == "voldep") != varies:
                 continue
@@ -716,15 +840,18 @@ def make_cases(ctx):
                 break
         if node is not None:
             add("union", node, params, prows, N=NBIG, n_small=rng.choice([2, 7, 40]))
-    # 5. products: independent and dependent (volume-weighted acceptance)
-    for i in range(ctx.scale(16, 160)):
+    # 5. products: independent and dependent (volume-weighted acceptance); first factors: bare primitives and
+    #    translated / rotated / Boolean combinations of shapes that depend on the second factor's variable
+    WRAPS = [None, "translate-const", "rotate", "annulus", "union", "translate-dep"]
+    for i in range(ctx.scale(24, 240)):
         params = rng.choice([[], [], ["t"]])
         prows = gen_prows(rng, params, 1 if params else 0)
         flavour = ["voldep", "voldep", "moved", "const"][i % 4]
-        node = gen_prod_node(rng, params, flavour)
+        wrap = WRAPS[(i // 4 + i) % len(WRAPS)]
+        node = gen_prod_node(rng, params, flavour, wrap=wrap)
         if node is not None:
             add("prod", node, params, prows, N=ctx.scale(60000, 120000), dependent=flavour != "const", flavour=flavour,
-                n_small=rng.choice([5, 17, 40]))
+                wrap=wrap or "bare", n_small=rng.choice([5, 17, 40]))
     # 5b. dependent products sampled one point per call (known finding: acceptance step skipped)
     for _ in range(ctx.scale(3, 30)):
         # fibre volume varies by a factor >= 4 over the interval: disc of radius 1/4 + a s or interval of that width
@@ -1119,21 +1246,22 @@ def run_union(tp, rep, case, lines, posts):
 
 
 def prod_partition(node, X, env_row):
-    """X columns: A's coordinates then s.  returns idx, probs, labels"""
+    """X columns: A's coordinates then s.  Joint cells (s-bin, fibre cell) with P = integral over the s-bin of the cell's
+    measure / total measure of the product (exact).  returns idx, probs, labels, marginal law of the s-bins"""
     a, b = node.kids
-    da = DIM[a.var]
+    da = X.shape[1] - 1
     (l,), (u,) = b.pfs[0].eval(env_row), b.pfs[1].eval(env_row)
     ms = 4
     s = X[:, da]
     sb = _bin((s - float(l)) / float(u - l), ms)
     envf = fenv(env_row)
     envf["s"] = [s]
-    ia, pa, la = nat_partition(a, X[:, :da], envf)
-    coef = fibre_volume_poly(a, env_row, "s")
-    tot = poly_int(coef, l, u)
-    ps = [float(poly_int(coef, l + (u - l) * Fr(i, ms), l + (u - l) * Fr(i + 1, ms)) / tot) for i in range(ms)]
-    idx = _combine([(sb, ms), (ia, len(pa))])
-    probs = [p * q_ for p in ps for q_ in pa]
+    ia, polys, la = fibre_cells(a, X[:, :da], envf, env_row)
+    tot = sum(poly_int(p, l, u) for p in polys)
+    edges = [l + (u - l) * Fr(i, ms) for i in range(ms + 1)]
+    probs = [float(poly_int(p, edges[i], edges[i + 1]) / tot) for i in range(ms) for p in polys]
+    ps = [sum(probs[i * len(polys):(i + 1) * len(polys)]) for i in range(ms)]
+    idx = _combine([(sb, ms), (ia, len(polys))])
     labels = [f"s in part {i + 1}/{ms} of its interval and {lb}" for i in range(ms) for lb in la]
     return idx, probs, labels, ps
 
@@ -1150,7 +1278,7 @@ def run_prod(tp, rep, case, lines, posts):
         Proxy = build_proxy_class(tp)
         log = []
         from torchphysics.problem.domains.domainoperations.product import ProductDomain
-        pdom = ProductDomain(Proxy(a.to_tp(tp), log, "A"), Proxy(b.to_tp(tp), log, "B"))
+        pdom = ProductDomain(Proxy(build_tp(a, tp), log, "A"), Proxy(build_tp(b, tp), log, "B"))
         n = case["n_small"]
         torch.manual_seed(case["seed"])
         with Tape() as tape:
@@ -1160,7 +1288,11 @@ def run_prod(tp, rep, case, lines, posts):
         vols = [e[3].reshape(-1) for e in log if e[0] == "A" and e[1] == "volume"]
         us = [t.reshape(-1) for t in tape.of("rand_like")]
         multi = [(bb, vv) for bb, vv in zip(bs, vols) if len(vv) != 1]
-        if len(bs) == len(vols) and len(multi) == len(us):
+        if not vols and n > 1:
+            rep.disagree("product acceptance correspondence: the first factor depends on the second factor's variable (model: free variables "
+                         "of the expression), but the library sampled it as a constant product: no fibre volume was evaluated, no candidate "
+                         "rejected", inp_of(case), dict(volume_calls=0, b_batches=len(bs)), dict(expected="one acceptance step per batch"))
+        elif len(bs) == len(vols) and len(multi) == len(us):
             ui = 0
             plan = []
             for bb, vv in zip(bs, vols):
@@ -1202,7 +1334,7 @@ def run_prod(tp, rep, case, lines, posts):
         else:
             rep.count("prod:acceptance-not-applicable")
     # ---- law on a big sample
-    dom = node.to_tp(tp)
+    dom = build_tp(node, tp)
     torch.manual_seed(case["seed"] + 1)
     N = case["N"]
     res = common.call_with_timeout(TIMEOUT, lambda: dom.sample_random_uniform(n=N, params=params))
@@ -1231,7 +1363,7 @@ def run_prod1(tp, rep, case):
     import torch
     node = geomgen.from_json(case["dom"])
     a, b = node.kids
-    dom = node.to_tp(tp)
+    dom = build_tp(node, tp)
     torch.manual_seed(case["seed"])
     calls = case["calls"]
     ss = []
@@ -1549,6 +1681,8 @@ def run(ctx, rep, cases=None):
         node = geomgen.from_json(cs["dom"])
         kind = cs["kind"]
         rep.count("kind:" + kind + (":" + cs["flavour"] if "flavour" in cs else ""))
+        if "wrap" in cs:
+            rep.count("prod-first-factor:" + cs["wrap"])
         for kd in set(node.kinds()):
             rep.count("node:" + kd)
         rep.count("param-rows:%d" % len(cs["prows"]))
